@@ -79,7 +79,7 @@ def run(ctx):
         eg = common.reject_guards(fa, cb, call_pred=empty_test)
         g1 = common.guarded_by(cb, j, eg)
         ng = common.reject_guards(fa, cb, bin_pred=neg_test)
-        g2 = common.guarded_by(cb, j, ng)
+        g2 = common.guarded_by(cb, j, ng, value=tj["a"][1] if len(tj["a"]) > 1 else None)
         fresh = False
         for k, tk in cfg.calls(cb):
             if common.norm(cfg.callee(tk) or "") == DB + "insert_node":
